@@ -95,6 +95,8 @@ class World:
             c = canon_algo(op["calgo"])
             if c:
                 digs[c] = hashlib.new(c, data).hexdigest()
+        if op.get("cid_case") == "upper":
+            cid = cid.upper()
         return self.ObjectMetadata("HashStoreNoPid", cid, len(data), digs)
 
     # ------------------------------------------------------------ executing one call
